@@ -423,6 +423,15 @@ def bitop(op, a, b):
     if not signed:
         if op == 'BitAnd':
             lo, hi = 0, min(a.hi, b.hi)
+            # masking away only bits whose value is known subtracts a constant: the interval is kept exactly
+            for u, m_ in ((a, b), (b, a)):
+                if m_.is_const() and u.sym is None:
+                    cleared = ~m_.uval() & mask(bits)
+                    ukz = u.kz | (mask(bits) & ~mask(u.hi.bit_length()))
+                    if cleared & ~(ukz | u.ko) == 0:
+                        c = u.ko & cleared
+                        lo, hi = u.lo - c, u.hi - c
+                        break
         elif op == 'BitOr':
             lo = max(a.lo, b.lo)
             hi = mask(max(a.hi.bit_length(), b.hi.bit_length()))
